@@ -15,6 +15,9 @@ func (r *Repo) Get(_ context.Context, id string) (model.Transaction, error) {
 		}, nil
 	}
 
+	r.m.RLock()
+	defer r.m.RUnlock()
+
 	tx, ok := r.storage.Load(id)
 	if !ok {
 		return model.Transaction{}, fs_db.ErrTxNotFound
